@@ -128,7 +128,7 @@ def _corpus():
 
 PARTS = [
     Part("solver", solver_strategy, check_solver, {"quick": 6000, "thorough": 200000},
-         floor={"quick": 1000, "thorough": 20000}, corpus=_corpus(), shrink={"quick": False, "thorough": True}),
+         floor={"quick": 300, "thorough": 10000}, corpus=_corpus(), shrink={"quick": False, "thorough": True}),
     Part("models", lambda tier: model_strategy(), check_model, {"quick": 1200, "thorough": 30000},
-         floor={"quick": 150, "thorough": 3000}, shrink={"quick": False, "thorough": True}),
+         floor={"quick": 60, "thorough": 1500}, shrink={"quick": False, "thorough": True}),
 ]
